@@ -31,7 +31,10 @@ impl DurationLiteral {
 
         // The fraction has both seconds and one part femptoseconds
         let fraction_seconds = Duration::microseconds(
-            (days.femptos * SECOND_PER_DAY / FixedPoint::FRACTIONAL_UNITS) as i64,
+            // Widen before multiplying: femptos * SECOND_PER_DAY exceeds u64 for
+            // fractions of about 0.21 days and more.
+            (days.femptos as u128 * SECOND_PER_DAY as u128 / FixedPoint::FRACTIONAL_UNITS as u128)
+                as i64,
         );
 
         Self {
